@@ -42,9 +42,7 @@ func (a *actor) derivedUsable(c call) bool {
 }
 
 func freshRealm(s string) []byte {
-	b := make([]byte, len(s), len(s)+8) // spare capacity
-	copy(b, s)
-	return b
+	return append(make([]byte, 0, 32), s...) // assembled with append: len < cap
 }
 
 func (a *actor) execDerive(c call) (ret, []opres) {
@@ -113,7 +111,7 @@ func (g *gen) deriveArg(how string, parent string) string {
 }
 
 type deriveShape struct {
-	derivations, extended, chained, fromFlush, ops, writes, batches, realms int
+	derivations, extended, chained, fromFlush, ops, writes, batches, realms, siblings, flushSiblings int
 }
 
 // script of a deriving goroutine: nd derivations, each followed by operations through the new view
@@ -185,7 +183,72 @@ func (g *gen) deriver(t int, nd int, big func() string, sh *deriveShape) []call 
 			cs = append(cs, ops...)
 		}
 	}
+	if g.r.Chance(1, 2) {
+		cs = append(cs, g.siblings(t, len(slots), sh)...)
+	}
 	bigify(cs, big)
+	return cs
+}
+
+// siblings: two views derived with WithExtendedRealm from ONE parent (a static view, plain or flushkv, or a view this goroutine derives
+// first with a realm slice that has spare capacity) with extensions of EQUAL length; the first sibling is written through before and
+// read through after the second one was derived, and Realm() of parent and siblings is compared with the bytes the harness passed
+// once all of them exist (an implementation building the child realm in the parent's buffer makes the siblings share one realm).
+func (g *gen) siblings(t int, used int, sh *deriveShape) []call {
+	v := vx.Pick(g.r, []int{5, 5, 4, 1, 2, 3, 0})
+	parent := views[v].Realm
+	from := 0
+	var cs []call
+	next := used
+	if g.r.Chance(1, 2) { // own parent first
+		parent = vx.Pick(g.r, []string{"", "a", "ab"})
+		next++
+		from = next
+		cs = append(cs, call{Kind: "derive", V: v, How: "withrealm", To: from, K: parent})
+		sh.derivations++
+	}
+	x, y := "k", "z"
+	switch parent {
+	case "":
+		x, y = "a", "b"
+	case "a":
+		x = "b"
+	case "ab":
+		x = "c"
+	}
+	if g.r.Chance(1, 2) {
+		x, y = y, x
+	}
+	key := func(realm string) string {
+		if ks := relKeys(realm, universe); len(ks) > 0 {
+			return vx.Pick(g.r, ks)
+		}
+		return "k"
+	}
+	s1, s2 := next+1, next+2
+	r1, r2 := parent+x, parent+y
+	k1 := key(r1)
+	cs = append(cs,
+		call{Kind: "derive", V: v, How: "extended", From: from, To: s1, K: x},
+		call{Kind: "set", V: v, D: s1, K: k1, Val: g.value(t)},
+		call{Kind: "derive", V: v, How: "extended", From: from, To: s2, K: y},
+		call{Kind: "realm", V: v, D: s1},
+		call{Kind: "get", V: v, D: s1, K: k1},
+		call{Kind: "set", V: v, D: s2, K: key(r2), Val: g.value(t)},
+		call{Kind: "iter", V: v, D: s1, K: "", Fwd: true, Keys: g.r.Chance(1, 2), Lim: 9},
+		call{Kind: "realm", V: v, D: s2},
+		call{Kind: "realm", V: v, D: from},
+		call{Kind: "realm", V: v, D: s1})
+	sh.derivations += 2
+	sh.extended += 2
+	sh.siblings++
+	if views[v].Fl {
+		sh.fromFlush += 2
+		sh.flushSiblings++
+	}
+	sh.ops += 8
+	sh.writes += 2
+	sh.realms += 4
 	return cs
 }
 
@@ -255,6 +318,7 @@ func runDerive(g *gen, count, toCoq int, seed uint64, st *vx.Stats, addCase func
 		for t := B; t < B+D; t++ {
 			scripts[t] = g.deriver(t, 1+g.r.Intn(3), big, &sh)
 		}
+		capParents := g.r.Chance(1, 2)
 		closing := g.r.Chance(1, 8)
 		if closing { // one Close somewhere in a busy script
 			t := g.r.Intn(B)
@@ -268,7 +332,7 @@ func runDerive(g *gen, count, toCoq int, seed uint64, st *vx.Stats, addCase func
 		}
 		rounds := g.r.Chance(1, 2)
 		jitter := []int{0, 0, 1, 0, 2}
-		h, fails, torn, hang := runFreeOpt(scripts, jitter, rounds, 15*time.Second, freeOpt{big: useBig})
+		h, fails, torn, hang := runFreeOpt(scripts, jitter, rounds, 15*time.Second, freeOpt{big: useBig, capParents: capParents})
 		if hang != nil {
 			hangs++
 			st.Fail(map[string]any{"kind": "hang", "mode": "derive", "seed": seed, "index": n, "in_flight": hang, "scripts": scripts,
@@ -315,5 +379,5 @@ func runDerive(g *gen, count, toCoq int, seed uint64, st *vx.Stats, addCase func
 	}
 	st.Extra["derive"] = map[string]any{"derivations": sh.derivations, "with_extended_realm": sh.extended, "from_a_derived_view": sh.chained,
 		"from_a_flushkv_view": sh.fromFlush, "calls_through_derived_views": sh.ops, "of_them_writes": sh.writes, "batches": sh.batches,
-		"realm_calls": sh.realms}
+		"realm_calls": sh.realms, "sibling_pairs_of_equal_extension_length": sh.siblings, "of_them_below_flushkv": sh.flushSiblings}
 }
